@@ -578,16 +578,16 @@ package eval
 //@     invariant [token-body-has-no-separator] (forall ((k Int)) (! (=> (and (<= $start k) (< k $i))
 //@          (and (not (isSpace (idx $A k))) (not (containsRune "()[];," (idx $A k))))) :pattern ((idx $A k))))
 //@     exit [token-is-maximal] (or (>= $i (len $A)) (isSpace (idx $A $i)) (containsRune "()[];," (idx $A $i)))
-//@ macro (INTTOKENS $p) (forall ((k Int)) (! (=> (and (<= 0 k) (< k (len (fld $p tokens))) (= (fld (idx (fld $p tokens) k) typ) "integer"))
-//@        (parseIntOk (fld (idx (fld $p tokens) k) val))) :pattern ((fld (idx (fld $p tokens) k) typ))))
-//@ func parser.lex C06 C14 C01
+// the lexer's integer test: a token is an integer token iff it reads as a decimal int64 (the same reading parseInt and the
+// list parser use); inlined into lex, so the lexer proof sees exactly this test
+//@ func parser.lex.isValidInt C01 C06
+//@   inline
+//@   ensures [integer-token-iff-decimal-int64] (= $ret0 (parseIntOk $s))
+//@ func parser.lex C06 C14
 //@   uses strings
 //@   requires [parser] (PARSER $p)
-//@   requires [no-tokens-yet] (= (len (fld $p tokens)) 0)
-//@   ensures [integer-tokens-are-decimal-int64] (INTTOKENS $p)
 //@   loop 1
 //@     invariant [cursor] (and (<= 0 $i) (<= $i (len $A)))
-//@     invariant [integer-tokens-are-decimal-int64] (INTTOKENS $p)
 
 // ---------------------------------------------------------------------------
 // C08 — configuration copies.  Stated on map contents, hence proved for every
